@@ -362,8 +362,16 @@ def gen_target(rng, triples, allow_shape_map=True, min_classes=1, type_prop=RDF_
         return {"all_classes_mode": True}
     if r < 0.8 or not allow_shape_map:
         k = rng.randint(min_classes, len(classes))
-        return {"target_classes": rng.sample(classes, k)}
-    return {"shape_map_raw": gen_shape_map(rng, triples, type_prop=type_prop)}
+        t = {"target_classes": rng.sample(classes, k)}
+        if rng.random() < 0.12:
+            t["_via_file"] = True          # handed over as file_target_classes
+        return t
+    t = {"shape_map_raw": gen_shape_map(rng, triples, type_prop=type_prop)}
+    if rng.random() < 0.25:
+        t["_json"] = True                  # the same shape map in the JSON syntax
+    if rng.random() < 0.12:
+        t["_via_file"] = True              # handed over as shape_map_file
+    return t
 
 
 def gen_shape_map(rng, triples, n_items=None, type_prop=RDF_TYPE):
